@@ -127,6 +127,162 @@ def traces(chk: Check) -> None:
                 chk.ok(rm, name, None)
 
 
+def interleaving(chk: Check) -> None:
+    """Two independent workloads stepped alternately (generator steps / statement calls / a statement of one stream encoded
+    while another stream is in the middle of a statement) must produce exactly what each produces alone."""
+    from .. import refenc
+    from ..freeze import freeze
+    from ..values import GenObj
+
+    rule = "C12.DIFF.interleaving"
+
+    def streams_for(it: Interp, physical: int):
+        k = K.Kit(it)
+        w = K.Wire(it)
+        out = []
+        for tag in ("A", "B"):
+            arity = 3 if physical == 1 else 4
+            stmts = []
+            for i in range(4):
+                st = C.base(f"{tag}{i // 2}", arity)  # pairs of equal statements: repeated terms are used
+                st[2] = P.t_lit(f"{tag}{i}", "typed" if i % 2 else "plain")
+                if arity == 4:
+                    st[3] = P.t_iri(f"{tag}.g{i // 3}")
+                stmts.append(tuple(st))
+            enc = refenc.RefEncoder(w, physical, 0, (8, 8, 8), refenc.Policy(framing="per-statement"))
+            for st in stmts:
+                enc.statement(st)
+            out.append((stmts, enc.finish()))
+        return k, out
+
+    # (a) parsers
+    for integ, mod in (("generic", K.GP), ("rdflib", K.RP)):
+        for physical in (1, 2, 3):
+            for parser in ("parse_jelly_flat", "parse_jelly_grouped"):
+
+                def scenario(it: Interp) -> Any:
+                    k, data = streams_for(it, physical)
+                    neutral = P.neutral_of_generic if integ == "generic" else P.neutral_of_rdflib
+
+                    def norm(item: Any) -> Any:
+                        if parser.endswith("grouped"):
+                            return freeze([x for x in P.sink_items(k, integ, item) if x[0] != "ns"])
+                        return freeze(neutral(it, item))
+
+                    solo = [[norm(x) for x in it.drain(k.call(k.get(mod, parser), k.input_stream(list(fr))))] for _s, fr in data]
+                    gens = [it.get_iter(k.call(k.get(mod, parser), k.input_stream(list(fr)))) for _s, fr in data]
+                    inter: list[list] = [[], []]
+                    live = [True, True]
+                    while any(live):
+                        for i in (0, 1):
+                            if live[i]:
+                                ok, item = it.next_value(gens[i])
+                                if ok:
+                                    inter[i].append(norm(item))
+                                else:
+                                    live[i] = False
+                    return solo, inter
+
+                inst = f"{integ}.{parser} physical={physical}: two parsers stepped alternately"
+                for it, out in explore(chk.program, scenario, max_paths=8, generic_strings=True):
+                    chk.paths += 1
+                    if out[0] != "ok":
+                        chk.fail(rule, inst, f"pyjelly.integrations.{integ}.parse.{parser}:interleaved", f"parsers that work alone fail when interleaved: {it.exc_class_name(out[1].exc)} at {out[1].site}")
+                    elif out[1][0] != out[1][1]:
+                        chk.fail(rule, inst, f"pyjelly.integrations.{integ}.parse.{parser}:interleaved", "a parser's output changes when another parser is consumed alternately with it (state shared between parsers)")
+                    else:
+                        chk.ok(rule, inst, {"items": [len(x) for x in out[1][0]]})
+    # (b), (c) serializers
+    for integ in ("generic", "rdflib"):
+        for physical in (1, 2):
+            for mode in ("alternating statements", "statement of B encoded while A iterates its terms"):
+
+                def scenario(it: Interp) -> Any:
+                    k = K.Kit(it)
+                    arity = 3 if physical == 1 else 4
+                    seqs = {}
+                    for tag in ("A", "B"):
+                        stmts = []
+                        for i in range(3):
+                            st = C.base(f"{tag}{i // 2}", arity)
+                            st[2] = P.t_lit(f"{tag}{i}", "typed" if i % 2 else "plain")
+                            if tag == "B":
+                                # a workload of a different shape, so that anything leaking between the streams shows on the wire
+                                st[0] = P.t_bnode(f"B{i}")
+                                st[2] = P.t_iri(f"B{i}.o") if i % 2 == 0 else P.t_lit(f"B{i}", "lang")
+                            stmts.append(tuple(st))
+                        seqs[tag] = stmts
+
+                    def mk_stream() -> Any:
+                        opts = P.make_options(k, logical=None, frame_size=3, generalized=integ == "generic", rdf_star=integ == "generic")
+                        if integ == "generic":
+                            return k.stream(P.STREAM_FOR[physical], k.generic_encoder(k.attr(opts, "lookup_preset")), opts)
+                        return k.method(k.get(K.ST, P.STREAM_FOR[physical]), "for_rdflib", opts)
+
+                    def build(st: tuple) -> tuple:
+                        return tuple((P.build_generic(k, t) if integ == "generic" else P.build_rdflib(t)) for t in st)
+
+                    meth = "triple" if physical == 1 else "quad"
+
+                    def run_solo(tag: str) -> Any:
+                        s_ = mk_stream()
+                        k.method(s_, "enroll")
+                        frames = []
+                        for st in seqs[tag]:
+                            fr = k.method(s_, meth, build(st))
+                            if fr is not None:
+                                frames.append(fr)
+                        fr = k.method(k.attr(s_, "flow"), "to_stream_frame")
+                        if fr is not None:
+                            frames.append(fr)
+                        return freeze(frames)
+
+                    solo = {t: run_solo(t) for t in ("A", "B")}
+                    sa, sb = mk_stream(), mk_stream()
+                    k.method(sa, "enroll")
+                    k.method(sb, "enroll")
+                    fa: list = []
+                    fb: list = []
+                    if mode == "alternating statements":
+                        for st_a, st_b in zip(seqs["A"], seqs["B"]):
+                            for s_, st, acc in ((sa, st_a, fa), (sb, st_b, fb)):
+                                fr = k.method(s_, meth, build(st))
+                                if fr is not None:
+                                    acc.append(fr)
+                    else:
+                        for st_a, st_b in zip(seqs["A"], seqs["B"]):
+                            terms_a = build(st_a)
+
+                            def host(ta=terms_a, stb=st_b):
+                                yield ta[0]
+                                # the other stream encodes a whole statement while this one is in the middle of its own
+                                fr_b = k.method(sb, meth, build(stb))
+                                if fr_b is not None:
+                                    fb.append(fr_b)
+                                for t_ in ta[1:]:
+                                    yield t_
+
+                            fr = k.method(sa, meth, GenObj(host(), "lazy terms"))
+                            if fr is not None:
+                                fa.append(fr)
+                    for s_, acc in ((sa, fa), (sb, fb)):
+                        fr = k.method(k.attr(s_, "flow"), "to_stream_frame")
+                        if fr is not None:
+                            acc.append(fr)
+                    return solo, {"A": freeze(fa), "B": freeze(fb)}
+
+                inst = f"{integ} {'TripleStream' if physical == 1 else 'QuadStream'}: {mode}"
+                for it, out in explore(chk.program, scenario, max_paths=8, generic_strings=True):
+                    chk.paths += 1
+                    if out[0] != "ok":
+                        chk.fail(rule, inst, f"pyjelly.serialize:{integ}:interleaved", f"streams that work alone fail when interleaved: {it.exc_class_name(out[1].exc)} at {out[1].site}")
+                    elif out[1][0] != out[1][1]:
+                        which = [t for t in ("A", "B") if out[1][0][t] != out[1][1][t]]
+                        chk.fail(rule, inst, f"pyjelly.serialize.encode:{'statement-scratch-state' if mode.startswith('statement of B') else 'stream-state'}:interleaved", f"the frames of stream {which} differ from what the same stream writes alone when another stream is driven {mode} (state shared between streams)")
+                    else:
+                        chk.ok(rule, inst, None)
+
+
 def fresh_state(chk: Check) -> None:
     rule = "C12.OWN.fresh-instance-state"
 
@@ -350,7 +506,9 @@ def check(chk: Check) -> None:
     chk.rule("C12.OWN.metadata-untouched", "the writer never fills the frame metadata map", floor=6)
     chk.trusted += ["protobuf serialisation is a deterministic function of the message when deterministic=True / no map fields are set", "rdflib store iteration order for a given store is not analysed"]
     chk.undecided += ["rdflib's iteration order, protobuf internals, true parallelism inside C extensions"]
+    chk.rule("C12.DIFF.interleaving", "parsers stepped alternately, and serializers driven alternately (statement by statement, and one statement encoded in the middle of another stream's statement), produce what each produces alone", floor=20)
     chk.part("traces", lambda: traces(chk))
+    chk.part("interleaving", lambda: interleaving(chk))
     chk.part("fresh-state", lambda: fresh_state(chk))
     chk.part("defaults", lambda: defaults(chk))
     chk.part("sweep", lambda: syntactic_sweep(chk))
